@@ -259,6 +259,9 @@ impl World {
             None
         } else if i == LAST {
             self.es.keys().next_back().copied()
+        } else if i == LAST - 1 {
+            // the entry before the newest one (the newest one when there is only one)
+            self.es.keys().rev().nth(1).or_else(|| self.es.keys().next_back()).copied()
         } else {
             self.es.keys().nth(i % n).copied()
         }
@@ -269,6 +272,9 @@ impl World {
             None
         } else if i == LAST {
             self.fs.keys().next_back().copied()
+        } else if i == LAST - 1 {
+            // the entry before the newest one (the newest one when there is only one)
+            self.fs.keys().rev().nth(1).or_else(|| self.fs.keys().next_back()).copied()
         } else {
             self.fs.keys().nth(i % n).copied()
         }
@@ -279,6 +285,9 @@ impl World {
             None
         } else if i == LAST {
             self.bs.keys().next_back().copied()
+        } else if i == LAST - 1 {
+            // the entry before the newest one (the newest one when there is only one)
+            self.bs.keys().rev().nth(1).or_else(|| self.bs.keys().next_back()).copied()
         } else {
             self.bs.keys().nth(i % n).copied()
         }
